@@ -87,7 +87,9 @@ func Run(strat Strategy, opt Options, main func()) Result {
 		opt.MaxSteps = 100000
 	}
 	if opt.Watchdog == 0 {
-		opt.Watchdog = 20 * time.Second
+		// (long: on a machine that is kept busy by several other checks a single real file operation of a task has been
+		// seen to take more than 20 s, and a run that gives up here ends the whole check as inconclusive)
+		opt.Watchdog = 90 * time.Second
 	}
 	s := &Sched{parked: make(chan struct{}), strat: strat, maxStep: opt.MaxSteps, keep: opt.KeepTrace}
 	S = s
